@@ -58,8 +58,10 @@ class P(flow.Plan):
         root, cfg = model(GENS_SMALL, piv, ["A", "B"], 2, 1, 2, True)
         runs.append(("alias-F9", "MCTransform", cfg, root, ["NamedImmutable"]))
         if tier == "thorough":
-            root, cfg = model(GENS_SMALL[:4], piv + [(1, 0, 0)], ["A", "B"], 2, 1, 2, False)
+            root, cfg = model(GENS_SMALL[:4], piv, ["A", "B"], 1, 1, 2, False)
             runs.append(("repaired-2names", "MCTransform", cfg, root, []))
+            root, cfg = model(GENS_SMALL, piv, ["A"], 2, 1, 2, False)
+            runs.append(("repaired-stack2", "MCTransform", cfg, root, []))
         return runs
 
     def behaviours(self, tier, sd):
